@@ -508,6 +508,19 @@ func (e *kvElection) attemptPriorityTakeover(payloadBytes []byte) error {
 		return fmt.Errorf("current leader has equal or higher priority: %d >= %d", currentPayload.Priority, e.cfg.Priority)
 	}
 
+	// Publish a token that has never been written before. The token prepared for the
+	// Create must not be reused: that Create may have been applied although its
+	// acknowledgement was lost (time-out), so the token may already be in the record's history.
+	var takeoverPayload leadershipPayload
+	if err := json.Unmarshal(payloadBytes, &takeoverPayload); err != nil {
+		return fmt.Errorf("failed to unmarshal payload for takeover: %w", err)
+	}
+	takeoverPayload.Token = uuid.New().String()
+	payloadBytes, err = json.Marshal(takeoverPayload)
+	if err != nil {
+		return fmt.Errorf("failed to marshal takeover payload: %w", err)
+	}
+
 	newRev, err := e.kv.Update(e.key, payloadBytes, entry.Revision())
 	if err != nil {
 		// Update failed - revision mismatch means someone else changed it
